@@ -4,17 +4,25 @@ Correspondence (every case calls the real code from the overlay build of the wor
   get_modularity        run : SkNet.Modularity.getModularity in Q, compared within TOL64
                         spec: the documented double sum (Spec/Modularity.lean) on the returned (mod, fit, div)
   optimize_core         run : the kernel model in Float32 on the very arrays the kernel receives (bit patterns);
-                              labels and the float32 `increase` compared exactly
+                              labels and the float32 `increase` compared exactly.  The arrays are (a) built by the
+                              harness the way `_optimize` builds them, (b) recorded at the kernel boundary inside
+                              tapped fits (`arrays: fit` in the signature): what Louvain._optimize / Leiden._optimize
+                              really hand over, on every aggregation level, together with what the kernel returned
   optimize_refine_core  run : the same for the Leiden refinement, the values of libc rand() being the oracle
                               (stream of the seed the kernel receives)
   Louvain.fit/Leiden.fit run: on inputs where float32 arithmetic is exact (total weight a power of two ...)
                               the whole fit (pre-processing, kernels, aggregation, stopping rules) in Q; labels and
-                              logged increases compared exactly
+                              logged increases compared exactly; elsewhere the model is asked whether it accepts the
+                              input (refusals compared both ways)
                         spec: on every input: objective of the kind (documented formula on the input matrix, in Q)
                               >= singletons - EPS32, = singletons + sum of logged increases within EPS32,
-                              no cluster across two connected components
-Every implementation call runs in a forked worker under an alarm: a call that hangs or crashes is the answer
-`hang` / `crash N`, compared with the model's like any other answer (after MAX_HANGS the rest is not run).
+                              no cluster across two connected components (above BIG_N nodes with a forest
+                              certificate that Lean checks)
+Every implementation call runs in a forked worker under an alarm.  A call that outlives its alarm is run again alone
+with a longer one: only if it outlives that too is it the answer `hang` (compared with the model's like any other
+answer; after MAX_HANGS the rest is not run); if it returns, the machine was slow (`impl:slow`, tool failure beyond
+MAX_SLOW).  A crash is the answer `crash N`.  Exceptions: only a ValueError raised by the library is `err ValueError`;
+any other exception (of the library or of this harness) is `exc <Class>`, which no model answers.
 """
 import ctypes
 import json
@@ -44,20 +52,30 @@ RULE = ('get_modularity: all digraphs n<=3 (loops, sampled weights) x all labeli
         '{degree, uniform, custom} x resolutions, rectangular matrices with labels_col, structured random graphs '
         'n<=12, a degenerate stream (empty, mismatched lengths, negative degrees, unknown weights, duplicates, '
         'explicit zeros, dense input); kernels: optimize_core / optimize_refine_core on normalised random graphs '
-        '(undirected/directed, self loops, float weights, unsorted rows) x kinds x resolutions x tolerances x '
-        'initial partitions; fits: all undirected graphs n<=4 and structured graphs n<=16 with total weight forced '
-        'to a power of two (exact run lines) and arbitrary weights (spec lines) x {dugue,newman,potts} x '
-        'resolutions x tolerances (no zero tolerance where float32 is inexact) x {square, bipartite, '
-        'force_bipartite}, plus a degenerate stream (one edge, isolated node, two components, empty, unknown kind, '
-        'stored zeros); every matrix in a container dtype that holds its values (bool, int8, uint8, int16, int32, '
-        'int64, float32, float64) plus a dtype stream (bool with reciprocal pairs, narrow integers whose sums wrap); '
-        'corpus/C06.jsonl first. Non-trivial: the metric case has a '
-        'cluster with two nodes and a stored entry; the kernel / fit case moves at least one node. '
-        'distinct = distinct (entry point, input, options)')
+        '(undirected/directed, self loops, float weights, unsorted rows) x kinds x resolutions x tolerances (zero '
+        'included) x initial partitions, and on the arrays recorded at the kernel boundary inside tapped fits (40% of '
+        'the fits with <= 40 nodes: first 3 calls of each kernel; zero-tolerance fits on weighted paths / rings of '
+        '9..40 nodes: every call, these reach the kernel bound on the passes); fits: all undirected graphs n<=4, '
+        'digraphs n=3 and structured graphs n<=16 with total weight forced to a power of two (exact run lines) and '
+        'arbitrary weights (spec lines) x {dugue,newman,potts; 25% in the capitalised / upper-case spelling} x '
+        'resolutions x tolerances (zero and 1e-7 included everywhere) x n_aggregations {-1,1,2,0} x {square, '
+        'bipartite, force_bipartite} x shuffle_nodes / sort_clusters (exact run lines: sort_clusters=False, shuffle for '
+        'Louvain only) x return_probs / return_aggregate (20% each) x container {csr 80%, csc, coo, lil, dense} x '
+        're-used estimators (12%, same graph or another square / rectangular one), mixed-sign weights, mid-size '
+        'graphs of 250..700 nodes (half of them with 2 or 3 components), plus a degenerate stream (one edge, isolated '
+        'node, two components, empty, unknown kind, cancelling weights, stored zeros); every matrix in a container '
+        'dtype that holds its values (bool, int8, uint8, int16, int32, int64, float32, float64) plus a dtype stream '
+        '(bool with reciprocal pairs, narrow integers whose sums wrap); corpus/C06.jsonl first. An evaluation is one '
+        'call of the implementation compared with the model and / or judged by the specification (the second, '
+        '"accepted?" question on the same call is not counted again; a kernel call recorded in a fit is an evaluation '
+        'of its own). Non-trivial: the metric case has a cluster with two nodes and a stored entry; the kernel / fit '
+        'case moves at least one node. distinct = distinct (entry point, input, options)')
 ASSUMPTIONS = ['scipy sparse products / `+=` / bmat / np.unique are the substrate (monitored through the outputs)',
                'the compiled kernels evaluate float expressions in IEEE binary32 without contraction (the run lines of the kernels compare bit patterns)',
                'optimize_refine_core draws from libc rand(); the harness reads the same stream through ctypes (the seed the kernel receives is observed at the call, or set by the harness when the signature has none)',
-               'float32 rounding of the gains is outside the theorems: spec lines allow EPS32 = 2e-5']
+               'float32 rounding of the gains is outside the theorems: spec lines allow EPS32 = 2e-5',
+               'total weight zero (mixed-sign weights that cancel) is outside the scope: the code divides by zero without raising and the model only covers the two cases of the degenerate stream',
+               'the forest certificate of the component clause on graphs above 60 nodes is computed by the harness (scipy pattern, BFS); Lean checks it (sound for any certificate)']
 
 KINDS = ['dugue', 'newman', 'potts']
 _libc = ctypes.CDLL('libc.so.6')
@@ -125,9 +143,9 @@ def _pick_dtype(rng, values, p=0.5):
 
 
 def _n_rands(n):
-    """optimize_refine_core makes at most n + 1 passes over n nodes and draws at most once per node and pass: with
-    n (n + 1) + 1 values the oracle of the model cannot run out"""
-    return n * (n + 1) + 1
+    """optimize_refine_core makes at most 100 passes (/repo 695ec4cc) over n nodes and draws at most once per node and
+    pass: with 100 n + 1 values the oracle of the model cannot run out"""
+    return 100 * n + 1
 
 
 def _rands(seed, k=N_RANDS):
@@ -552,7 +570,12 @@ def case_fit(desc, impl, plain_rand=True):
             if t.startswith('index='):
                 index = [int(x) for x in t[6:].split(',')] if t[6:] != '-' else []
         impl = ' '.join(toks[:3])
-    ktok = kind.lower() if kind.lower() in KINDS else 'other'     # Louvain.__init__ lower-cases the name
+    if impl.startswith('ok '):
+        n_labs = 0 if impl.split(' ')[1] == '-' else impl.split(' ')[1].count(',') + 1
+        if n_labs != n_nodes:
+            # not a labelling of the nodes: an answer no model gives (disagreement), not a request the driver rejects
+            impl = 'badshape labels=%d nodes=%d' % (n_labs, n_nodes)
+    ktok = kind.lower() if kind.lower() in KINDS else 'other'     # Louvain._pre_processing lower-cases the name
     run = None
     note = None
     if shuffle and impl.startswith('ok ') and index is None:
